@@ -137,11 +137,22 @@ func loadAllLedger(regs map[atree.SlabID][]byte) (*atree.PersistentSlabStorage, 
 	led := NewLedgerFrom(regs, nil)
 	ps := newStorage(led)
 	ids := sortedIDs(regs)
+	// "all slabs loaded" is established alternately by one parallel preload and by retrieving every register one by one
+	if loadAllCalls++; loadAllCalls%2 == 0 {
+		for _, id := range ids {
+			if _, _, err := ps.Retrieve(id); err != nil {
+				return nil, nil, err
+			}
+		}
+		return ps, led, nil
+	}
 	if err := ps.BatchPreload(ids, 4); err != nil {
 		return nil, nil, err
 	}
 	return ps, led, nil
 }
+
+var loadAllCalls int
 
 func freshID(regs map[atree.SlabID][]byte, addr atree.Address, salt uint64) atree.SlabID {
 	for i := uint64(1); ; i++ {
